@@ -36,6 +36,14 @@ def evalView (s : DState) (view : String) : String :=
         match mkCtx s engineQuirks with
         | some (c, w) => showResult (engRun c w e)
         | none => "bad-op"
+      | "native" =>
+        -- does plan construction succeed (no fallback)?
+        match mkCtx s engineQuirks with
+        | some (c, _) =>
+          match engOp c e with
+          | .ok _ => "1"
+          | .error _ => "0"
+        | none => "bad-op"
       | "ties" =>
         match mkCtx s Quirks.none with
         | some (c, w) => if hasTie c w.grid e then "1" else "0"
